@@ -256,12 +256,16 @@ class ASTTypeBuilder:
         )
 
     def _build_enum_type(self, type_def: _ast.EnumTypeDefinition) -> EnumType:
-        return EnumType(
-            name=type_def.name.value,
-            description=_desc(type_def),
-            values=[self._build_enum_value(v) for v in type_def.values],
-            nodes=[type_def],
-        )
+        try:
+            return EnumType(
+                name=type_def.name.value,
+                description=_desc(type_def),
+                values=[self._build_enum_value(v) for v in type_def.values],
+                nodes=[type_def],
+            )
+        except ValueError as err:
+            # e.g. duplicate enum values
+            raise SDLError(str(err), [type_def])
 
     def _build_enum_value(self, node: _ast.EnumValueDefinition) -> EnumValue:
         return EnumValue(
